@@ -371,6 +371,8 @@ def subscript(I, obj, idx, node):
     from sa.interp import AbsRaise
     obj = concrete(obj) if is_concrete(obj) else obj
     cidx = concrete(idx)
+    if getattr(I, 'record_reads', False) and isinstance(obj, (ADict, AList)):
+        I.emit('container-read', node, {'obj': obj})
     if isinstance(obj, ADict):
         if is_concrete(idx):
             if cidx in obj.items:
@@ -609,6 +611,8 @@ def iterate(I, it, node):
             and isinstance(it[1], list):
         return it[1]
     it = concrete(it) if is_concrete(it) else it
+    if getattr(I, 'record_reads', False) and isinstance(it, (ADict, AList)):
+        I.emit('container-read', node, {'obj': it})
     if type(it).__name__ == 'AIter':
         rest = it.items[it.pos:]
         it.pos = len(it.items)
